@@ -1151,7 +1151,45 @@ func (p *Program) applyRecheck(a *LockAnalysis, s *fsmSite) recheckResult {
 			return recheckResult{Verdict: Violated, Facts: res.Facts,
 				Detail: fmt.Sprintf("the store to Raft.lastApplied at %s is reachable from the re-Lock at %s without passing the equal edge of the re-check", p.InstrPos(unguarded), p.InstrPos(l))}
 		}
-		res.Detail = fmt.Sprintf("after the re-Lock at %s every store to Raft.lastApplied (%d) before the next Log.GetEntry lies behind the equal edge of a comparison of Raft.lastApplied with the value saved before the Unlock", p.InstrPos(l), len(incs))
+		// ... and the application is accounted for: unless the re-check says that lastApplied was changed in the window
+		// (its not-equal edge), no path from the re-Lock reaches the next fetch, a wait or a return without a store to
+		// lastApplied. An entry that was handed to the state machine and not counted is handed to it again (by the next
+		// iteration, or by the loop that a Start() after Stop() runs over the same state machine).
+		var skipped ssa.Instruction
+		scanFrom(l, func(in ssa.Instruction) bool {
+			if isStoreLA(in) {
+				return false
+			}
+			stop := isGetEntry(in)
+			if _, isRet := in.(*ssa.Return); isRet {
+				stop = true
+			}
+			if ci, ok := in.(*ssa.Call); ok {
+				if op, _ := isMutexOp(ci.Common()); op == "Cond.Wait" {
+					stop = true
+				}
+			}
+			if stop {
+				if skipped == nil {
+					skipped = in
+				}
+				return false
+			}
+			return true
+		}, func(b *ssa.BasicBlock, k int) bool {
+			for _, c := range checks {
+				if c.ifI.Block() == b {
+					return k == c.eqEdge
+				}
+			}
+			return true
+		})
+		if skipped != nil {
+			return recheckResult{Verdict: Violated, Facts: res.Facts,
+				Detail: fmt.Sprintf("after the re-Lock at %s the loop can reach %s without storing Raft.lastApplied although the re-check found it unchanged (a condition other than the re-check skips the increment): "+
+					"the entry has been handed to the state machine and is not counted, so it is handed to it again — by the next iteration, or after Stop() and Start() of the same node, which keep the same state machine", p.InstrPos(l), p.InstrPos(skipped))}
+		}
+		res.Detail = fmt.Sprintf("after the re-Lock at %s every store to Raft.lastApplied (%d) before the next Log.GetEntry lies behind the equal edge of a comparison of Raft.lastApplied with the value saved before the Unlock, and nothing but that comparison's other edge skips the store", p.InstrPos(l), len(incs))
 	}
 	return res
 }
@@ -1278,7 +1316,7 @@ func ruleApplyRecheck() *Rule {
 	return &Rule{
 		ID: "APPLY-RECHECK",
 		Text: "A replicated StateMachine.Apply made in an unlock window of Raft.mu: after the re-Lock, every store to Raft.lastApplied before the next entry is fetched " +
-			"(Log.GetEntry) is guarded by the equal edge of a comparison of Raft.lastApplied (read after the re-Lock) with its value saved before the Unlock.",
+			"(Log.GetEntry) is guarded by the equal edge of a comparison of Raft.lastApplied (read after the re-Lock) with its value saved before the Unlock, and only that comparison's other edge lets the loop go on (fetch, wait, return) without such a store.",
 		Floor: 1,
 		Run: func(p *Program) []Obligation {
 			a := p.Locks(nodeMutex)
